@@ -1233,7 +1233,11 @@ fn sgr_color<'a>(mut cmds: impl Iterator<Item = &'a [u8]>, colon: bool) -> Optio
             ];
             match components {
                 [Some(r), Some(g), Some(b), None] | [_, Some(r), Some(g), Some(b)] => {
-                    Some(RGBA::new(r as u8, g as u8, b as u8, 255))
+                    // out of range components are not valid color
+                    let r = u8::try_from(r).ok()?;
+                    let g = u8::try_from(g).ok()?;
+                    let b = u8::try_from(b).ok()?;
+                    Some(RGBA::new(r, g, b, 255))
                 }
                 _ => None,
             }
